@@ -148,6 +148,8 @@ func cmdRun(args []string) error {
 	var wg sync.WaitGroup
 	var mu sync.Mutex
 	restarts := 0
+	const giveUp = 3 // a worker stops after this many hangs / crashes: the failure is established, the rest would only cost time
+	notRun := 0
 	for w := 0; w < *workers; w++ {
 		wg.Add(1)
 		go func(w int) {
@@ -155,7 +157,14 @@ func cmdRun(args []string) error {
 			part := filepath.Join(*tmp, fmt.Sprintf("obs_%d.ndjson", w))
 			os.Remove(part)
 			from := w
+			failures := 0
 			for from < len(cases) {
+				if failures >= giveUp {
+					mu.Lock()
+					notRun += (len(cases) - from + *workers - 1) / *workers
+					mu.Unlock()
+					break
+				}
 				var stderr bytes.Buffer
 				cmd := exec.Command(self, "shapes-child", "-cases", *casesF, "-out", part, "-from", fmt.Sprint(from), "-stride", fmt.Sprint(*workers),
 					"-timeout", timeout.String(), "-depth", fmt.Sprint(*depth), "-tmp", filepath.Join(*tmp, fmt.Sprintf("w%d", w)))
@@ -170,6 +179,7 @@ func cmdRun(args []string) error {
 				mu.Lock()
 				restarts++
 				mu.Unlock()
+				failures++
 				if last < 0 {
 					appendLine(part, Obs{Idx: from, Case: cases[from], Crash: "child could not start: " + runErr.Error() + " " + tail(stderr.String(), 600)})
 					from += *workers
@@ -208,7 +218,7 @@ func cmdRun(args []string) error {
 		}
 		f.Close()
 	}
-	fmt.Fprintf(os.Stderr, "shapes-run: %d cases, %d observations, %d child restarts\n", len(cases), n, restarts)
+	fmt.Fprintf(os.Stderr, "shapes-run: %d cases, %d observations, %d child restarts, %d cases not run after repeated hangs or crashes\n", len(cases), n, restarts, notRun)
 	return nil
 }
 
